@@ -241,9 +241,10 @@ def end_checks(ex, s2, kind, val, inputs, N, J, where='end', in_ty='T', out_ty=N
             ex.require(s2, z3.BoolVal('own_panic' not in s2.notes), 'the operation panics on its own although no caller-supplied code panicked', where + '(unwind)')
         # an element without drop glue that is abandoned on unwind is not a leak: where the element type of an array is known and the code
         # asks `needs_drop` of it, the leak obligation is stated for element types that need dropping
-        nd_in = ex.needs_drop.get(in_ty, z3.BoolVal(True)) if in_ty else z3.BoolVal(True)
         nd_out = nd_all(ex)
-        for A in inputs:
+        for ai_, A in enumerate(inputs):
+            ty_ = in_ty[ai_] if isinstance(in_ty, (list, tuple)) else in_ty      # the type parameter that names THIS input's element type in the body
+            nd_in = ex.needs_drop.get(ty_, z3.BoolVal(True)) if ty_ else z3.BoolVal(True)
             ex.require(s2, z3.Implies(z3.And(inA, nd_in), z3.Or(s2.status[A] == EXTERN, s2.status[A] == DROPPED)), 'input element leaked on unwind', where + '(unwind)')
         for arr, stt in out_arrays(s2):
             ex.require(s2, z3.Implies(z3.And(inA, nd_out), z3.Or(stt == UNINIT, stt == DROPPED)), 'already-built output element leaked on unwind', where + '(unwind)')
@@ -335,12 +336,12 @@ def op_zip_owned(fns, src, nmax, name=None):
         unw += kind == 'unwind'
         nd = z3.Or(ex.needs_drop.get('T', z3.BoolVal(True)), ex.needs_drop.get('B', z3.BoolVal(True)))
         if kind == 'ret':
-            end_checks(ex, s2, kind, val, [A, Bv], N, J)
+            end_checks(ex, s2, kind, val, [A, Bv], N, J, in_ty=['T', 'B'])
         else:
             # the ledger only matters when some element type needs drop (the other branch is deliberately ledger-free)
             if ex.feasible(s2, nd):
                 s2.pc.append(nd)
-                end_checks(ex, s2, kind, val, [A, Bv], N, J)
+                end_checks(ex, s2, kind, val, [A, Bv], N, J, in_ty=['T', 'B'])
     return finish(res, ex, t0, paths, unw)
 
 
